@@ -207,14 +207,54 @@ theorem inflight_h2_body_completes (pre evs : List H2GoAway.Ev) (id : Nat) (decl
     (H2GoAway.run c0 (.headers id false decl :: evs)).1.dead = false →
     Out.deliver id chunks.sum ∈ (H2GoAway.run c0 (.headers id false decl :: evs)).2 := by
   intro c0 hd hg hodd hnone hmax hp hdecl hend hfin
-  have hst := headersStale_of_lt id c0.maxId hmax
-  have hstep : H2GoAway.step c0 (.headers id false decl) =
-      ({ setS c0 id ⟨id, false, 0, decl, false⟩ with maxId := id }, []) := by
-    simp [H2GoAway.step, stepWith, hd, hg, headersIgnored_noGoAway, hodd, hnone, hst]
+  have hstep := open_step c0 id decl hd hg hodd hnone hmax
   rw [run_cons, hstep] at hfin ⊢
   have hk : Keeps ({ setS c0 id ⟨id, false, 0, decl, false⟩ with maxId := id } : H2GoAway.Conn) id ⟨id, false, 0, decl, false⟩ :=
     ⟨hd, getS_setS_eq c0 id _, Nat.le_refl _, fun h => by rw [show ({ setS c0 id ⟨id, false, 0, decl, false⟩ with maxId := id } : H2GoAway.Conn).inGoAway = c0.inGoAway from rfl, hg] at h; exact Bool.noConfusion h⟩
   have := inflight_complete id decl tr hodd evs chunks _ 0 hk hfin hp (by intro d h; have := hdecl d h; omega) hend
+  simpa using this
+
+/-- **inflight_h2_goaway_between_frames**: the statement without any survival hypothesis, for a connection that carries
+this request only: HEADERS, then the body frames with `GoAway()` invoked at ANY position `n` among them (before the
+first DATA frame, between any two, before the trailers, after the end) — the connection stays open and the request is
+delivered with its complete body. -/
+theorem inflight_h2_goaway_between_frames (id : Nat) (decl : Option Nat) (tr : Bool) (chunks : List Nat) (n : Nat)
+    (hodd : id % 2 = 1) (hdecl : ∀ d, decl = some d → chunks.sum ≤ d) (hend : tr = true ∨ chunks ≠ []) :
+    let evs := H2GoAway.Ev.headers id false decl ::
+      ((bodyFrames id tr chunks).take n ++ [H2GoAway.Ev.shutdown] ++ (bodyFrames id tr chunks).drop n)
+    (H2GoAway.run H2GoAway.Conn.initial evs).1.dead = false ∧
+    Out.deliver id chunks.sum ∈ (H2GoAway.run H2GoAway.Conn.initial evs).2 := by
+  intro evs
+  have hbody := body_other id tr chunks
+  let tl := (bodyFrames id tr chunks).take n ++ [H2GoAway.Ev.shutdown] ++ (bodyFrames id tr chunks).drop n
+  have hall : ∀ e ∈ tl, e = H2GoAway.Ev.shutdown ∨ H2GoAway.Ev.other id e = false := by
+    intro e he
+    simp only [tl, List.mem_append, List.mem_singleton] at he
+    rcases he with (he | he) | he
+    · exact Or.inr (hbody e (List.mem_of_mem_take he))
+    · exact Or.inl he
+    · exact Or.inr (hbody e (List.mem_of_mem_drop he))
+  have hfilter : tl.filter (fun e => !H2GoAway.Ev.other id e) = bodyFrames id tr chunks := by
+    have hf : ∀ l : List H2GoAway.Ev, (∀ e ∈ l, H2GoAway.Ev.other id e = false) →
+        l.filter (fun e => !H2GoAway.Ev.other id e) = l := by
+      intro l hl
+      apply List.filter_eq_self.2
+      intro e he; simp [hl e he]
+    simp only [tl, List.filter_append]
+    rw [hf _ (fun e he => hbody e (List.mem_of_mem_take he)), hf _ (fun e he => hbody e (List.mem_of_mem_drop he))]
+    simp [H2GoAway.Ev.other, List.take_append_drop]
+  have hstep := open_step H2GoAway.Conn.initial id decl rfl rfl hodd rfl (show (0 : Nat) < id by omega)
+  have hk : Keeps ({ setS H2GoAway.Conn.initial id ⟨id, false, 0, decl, false⟩ with maxId := id } : H2GoAway.Conn) id
+      ⟨id, false, 0, decl, false⟩ :=
+    ⟨rfl, getS_setS_eq _ id _, Nat.le_refl _, fun h => Bool.noConfusion h⟩
+  have halive := alone_alive id decl tr hodd tl chunks _ 0 hk hall hfilter
+    (by intro d h; have := hdecl d h; omega)
+  show (H2GoAway.run H2GoAway.Conn.initial (.headers id false decl :: tl)).1.dead = false ∧
+    Out.deliver id chunks.sum ∈ (H2GoAway.run H2GoAway.Conn.initial (.headers id false decl :: tl)).2
+  rw [run_cons, hstep]
+  refine ⟨halive, ?_⟩
+  have := inflight_complete id decl tr hodd tl chunks _ 0 hk halive hfilter
+    (by intro d h; have := hdecl d h; omega) hend
   simpa using this
 
 /-- the rule owed by `processData` and `processHeaders`, as regenerated: after a graceful GOAWAY nothing of a stream at
